@@ -3,13 +3,16 @@ import Zstd.Proofs.FrameDecoderLoops
 Helper lemmas at the level of the public operations of `FrameDecoder`: the step relation `FStep` /
 `DStep` (what any operation may do to the state), `decode_from_to`, `decode_all`, streaming read.
 -/
+set_option linter.unusedSectionVars false
 namespace Zstd.Model
 open Zstd
+
+variable {σ : Type} [BlockDec σ] [BlockContract σ]
 
 /-- One step of the frame state under ANY operation (decode or drain): `dl` are the bytes handed to
 the caller.  The byte stream `hashed ++ content` only ever grows at the back; drains move bytes from
 the front of `content` to the back of `hashed`. -/
-structure FStep (st st' : FState) (dl : Array Nat) : Prop where
+structure FStep (st st' : FState σ) (dl : Array Nat) : Prop where
   header : st'.header = st.header
   usingDict : st'.usingDict = st.usingDict
   dict : st'.buf.dict = st.buf.dict
@@ -21,10 +24,10 @@ structure FStep (st st' : FState) (dl : Array Nat) : Prop where
   finished_mono : st.finished = true → st'.finished = true
   checksum_keep : st'.finished = false → st'.checksum = st.checksum
 
-theorem FStep.refl (st : FState) : FStep st st #[] :=
+theorem FStep.refl (st : FState σ) : FStep st st #[] :=
   ⟨rfl, rfl, rfl, rfl, by simp, ⟨#[], by simp⟩, Nat.le_refl _, Nat.le_refl _, id, fun _ => rfl⟩
 
-theorem FStep.trans {a b c : FState} {d1 d2 : Array Nat} (h1 : FStep a b d1) (h2 : FStep b c d2) :
+theorem FStep.trans {a b c : FState σ} {d1 d2 : Array Nat} (h1 : FStep a b d1) (h2 : FStep b c d2) :
     FStep a c (d1 ++ d2) := by
   obtain ⟨x, hx⟩ := h1.stream
   obtain ⟨y, hy⟩ := h2.stream
@@ -40,16 +43,16 @@ theorem FStep.trans {a b c : FState} {d1 d2 : Array Nat} (h1 : FStep a b d1) (h2
     | true => rw [h2.finished_mono hbf] at hf; cases hf
   rw [h2.checksum_keep hf, h1.checksum_keep hb]
 
-theorem LoopStep.fstep {st st' : FState} (h : LoopStep st st') : FStep st st' #[] := by
+theorem LoopStep.fstep {st st' : FState σ} (h : LoopStep st st') : FStep st st' #[] := by
   obtain ⟨x, hx⟩ := h.appends
   exact ⟨h.header, h.usingDict, hx.dict, hx.window, by simp [hx.hashed], ⟨x, by simp [hx.content]⟩,
     h.bytesRead_le, h.blockCounter_le, h.finished_mono, h.checksum_keep⟩
 
-theorem FStep.take (st : FState) (k : Nat) :
+theorem FStep.take (st : FState σ) (k : Nat) :
     FStep st { st with buf := (st.buf.take k).2 } (st.buf.take k).1 :=
   ⟨rfl, rfl, rfl, rfl, rfl, ⟨#[], by rw [DBuf.take_partition]; simp⟩, Nat.le_refl _, Nat.le_refl _, id, fun _ => rfl⟩
 
-theorem FStep.wf {st st' : FState} {dl : Array Nat} (h : FStep st st' dl) (hw : st.WF) : st'.WF := by
+theorem FStep.wf {st st' : FState σ} {dl : Array Nat} (h : FStep st st' dl) (hw : st.WF) : st'.WF := by
   intro hf
   have : st.finished = false := by
     cases hs : st.finished with
@@ -58,18 +61,18 @@ theorem FStep.wf {st st' : FState} {dl : Array Nat} (h : FStep st st' dl) (hw : 
   rw [h.checksum_keep hf, hw this]
 
 /-- the same, one level up: the whole decoder (dictionaries and limit never change) -/
-def DStep (d d' : Decoder) (dl : Array Nat) : Prop :=
+def DStep (d d' : Decoder σ) (dl : Array Nat) : Prop :=
   d'.dicts = d.dicts ∧ d'.maxWindow = d.maxWindow ∧
   ((d.state = none ∧ d'.state = none ∧ dl = #[]) ∨
    ∃ st st', d.state = some st ∧ d'.state = some st' ∧ FStep st st' dl)
 
-theorem DStep.refl (d : Decoder) : DStep d d #[] := by
+theorem DStep.refl (d : Decoder σ) : DStep d d #[] := by
   refine ⟨rfl, rfl, ?_⟩
   cases h : d.state with
   | none => exact Or.inl ⟨rfl, rfl, rfl⟩
   | some st => exact Or.inr ⟨st, st, rfl, rfl, FStep.refl st⟩
 
-theorem DStep.trans {a b c : Decoder} {d1 d2 : Array Nat} (h1 : DStep a b d1) (h2 : DStep b c d2) :
+theorem DStep.trans {a b c : Decoder σ} {d1 d2 : Array Nat} (h1 : DStep a b d1) (h2 : DStep b c d2) :
     DStep a c (d1 ++ d2) := by
   refine ⟨h2.1.trans h1.1, h2.2.1.trans h1.2.1, ?_⟩
   rcases h1.2.2 with ⟨ha, hb, rfl⟩ | ⟨st, st', ha, hb, hs⟩
@@ -81,19 +84,19 @@ theorem DStep.trans {a b c : Decoder} {d1 d2 : Array Nat} (h1 : DStep a b d1) (h
     · rw [hb] at hb2; cases hb2
       exact Or.inr ⟨st, st2', ha, hc, hs.trans hs2⟩
 
-theorem DStep.hashed {d d' : Decoder} {dl : Array Nat} (h : DStep d d' dl) : d'.hashed = d.hashed ++ dl := by
+theorem DStep.hashed {d d' : Decoder σ} {dl : Array Nat} (h : DStep d d' dl) : d'.hashed = d.hashed ++ dl := by
   rcases h.2.2 with ⟨ha, hb, rfl⟩ | ⟨st, st', ha, hb, hs⟩
   · simp [Decoder.hashed, ha, hb]
   · simp [Decoder.hashed, ha, hb, hs.hashed]
 
 /-- every drain operation is a step delivering exactly the bytes it returns -/
-theorem applyDrain_dstep (d : Decoder) (op : DrainOp) : DStep d (applyDrain d op).1 (applyDrain d op).2 := by
+theorem applyDrain_dstep (d : Decoder σ) (op : DrainOp) : DStep d (applyDrain d op).1 (applyDrain d op).2 := by
   rcases applyDrain_take d op with ⟨hn, he⟩ | ⟨st, k, hs, hk, he⟩
   · rw [he]; exact DStep.refl d
   · rw [he]; exact ⟨rfl, rfl, Or.inr ⟨st, _, hs, rfl, FStep.take st k⟩⟩
 
 /-- `decode_blocks` through the loop -/
-theorem Decoder.decodeBlocks_some (d : Decoder) (st : FState) (s : Src) (strat : Strategy) (h : d.state = some st) :
+theorem Decoder.decodeBlocks_some (d : Decoder σ) (st : FState σ) (s : Src) (strat : Strategy) (h : d.state = some st) :
     d.decodeBlocks s strat =
       ({ d with state := some (decodeBlocksLoop strat st.buf.content.size st.blockCounter (s.length + 1) st s).1 },
         match (decodeBlocksLoop strat st.buf.content.size st.blockCounter (s.length + 1) st s).2 with
@@ -103,7 +106,7 @@ theorem Decoder.decodeBlocks_some (d : Decoder) (st : FState) (s : Src) (strat :
   simp only [Decoder.decodeBlocks, h]
   split <;> rename_i heq <;> simp [heq]
 
-theorem Decoder.decodeBlocks_dstep (d : Decoder) (s : Src) (strat : Strategy) :
+theorem Decoder.decodeBlocks_dstep (d : Decoder σ) (s : Src) (strat : Strategy) :
     DStep d (d.decodeBlocks s strat).1 #[] := by
   cases h : d.state with
   | none => simp only [Decoder.decodeBlocks, h]; exact DStep.refl d
@@ -113,7 +116,7 @@ theorem Decoder.decodeBlocks_dstep (d : Decoder) (s : Src) (strat : Strategy) :
 
 
 
-theorem blockBody_bytesRead_upper (st : FState) (bh : BHeader) (body : List Nat)
+theorem blockBody_bytesRead_upper (st : FState σ) (bh : BHeader) (body : List Nat)
     (h1 : bh.btype = 1 → bh.contentSize = 1) (h0 : bh.btype = 0 → bh.contentSize = bh.decompressedSize) :
     (blockBody st bh body).1.bytesRead ≤ st.bytesRead + (3 + bh.contentSize) := by
   simp only [blockBody]
@@ -124,7 +127,7 @@ theorem blockBody_bytesRead_upper (st : FState) (bh : BHeader) (body : List Nat)
     · split <;> simp <;> omega
 
 /-- whatever happens, a block never counts more bytes than the source holds -/
-theorem decodeOneBlock_bytesRead_upper (st : FState) (s : Src) :
+theorem decodeOneBlock_bytesRead_upper (st : FState σ) (s : Src) :
     (decodeOneBlock st s).1.bytesRead ≤ st.bytesRead + s.length := by
   rw [decodeOneBlock_eq]
   split
@@ -140,7 +143,7 @@ theorem decodeOneBlock_bytesRead_upper (st : FState) (s : Src) :
         omega
 
 /-- one unfolding of the `decode_from_to` loop -/
-theorem decodeFromToLoop_succ (fuel : Nat) (st : FState) (s : Src) :
+theorem decodeFromToLoop_succ (fuel : Nat) (st : FState σ) (s : Src) :
     decodeFromToLoop (fuel + 1) st s =
       if s.length < 3 then (st, .ok ())
       else match parseBlockHeader (s.getD 0 0) (s.getD 1 0) (s.getD 2 0) with
@@ -182,7 +185,7 @@ theorem decodeFromToLoop_succ (fuel : Nat) (st : FState) (s : Src) :
               rw [List.length_take]; apply propext; omega
             simp only [e4]
 
-theorem decodeFromToLoop_step (fuel : Nat) (st : FState) (s : Src) :
+theorem decodeFromToLoop_step (fuel : Nat) (st : FState σ) (s : Src) :
     LoopStep st (decodeFromToLoop fuel st s).1 ∧
     (decodeFromToLoop fuel st s).1.bytesRead ≤ st.bytesRead + s.length := by
   induction fuel generalizing st s with
@@ -204,7 +207,7 @@ theorem decodeFromToLoop_step (fuel : Nat) (st : FState) (s : Src) :
             simp only at hb hu
             obtain ⟨hlen, hs1, -, -, hbr, -⟩ := decodeOneBlock_ok _ _ _ _ _ heq
             have hl1 : s1.length = s.length - (3 + bh'.contentSize) := by rw [hs1, List.length_drop]
-            have hfin : ∀ st2 : FState, st2.header = st1.header → st2.usingDict = st1.usingDict →
+            have hfin : ∀ st2 : FState σ, st2.header = st1.header → st2.usingDict = st1.usingDict →
                 st2.buf = st1.buf → st1.bytesRead ≤ st2.bytesRead → st2.blockCounter = st1.blockCounter →
                 st2.finished = true → LoopStep st st2 := by
               intro st2 h1 h2 h3 h4 h5 h6
@@ -219,7 +222,7 @@ theorem decodeFromToLoop_step (fuel : Nat) (st : FState) (s : Src) :
               exact ⟨hb.trans this.1, by omega⟩
 
 /-- `fuel_suffices` for the `decode_from_to` loop -/
-theorem decodeFromToLoop_fuel (f1 f2 : Nat) (st : FState) (s : Src) (h1 : s.length < f1) (h2 : s.length < f2) :
+theorem decodeFromToLoop_fuel (f1 f2 : Nat) (st : FState σ) (s : Src) (h1 : s.length < f1) (h2 : s.length < f2) :
     decodeFromToLoop f1 st s = decodeFromToLoop f2 st s := by
   induction f1 generalizing f2 st s with
   | zero => omega
@@ -292,7 +295,7 @@ theorem readFrameHeader_ok (s : Src) (h : FHeader) (n : Nat) (rest : Src)
 
 
 /-- the state a successful (state-replacing) reset leaves -/
-theorem resetCore_replace (dicts : List Dict) (mw : Nat) (s : Src) (st : FState) (o : Out Src)
+theorem resetCore_replace (dicts : List (Dict σ)) (mw : Nat) (s : Src) (st : FState σ) (o : Out Src)
     (h : resetCore dicts mw s = .replace st o) :
     st.finished = false ∧ st.checksum = none ∧ st.blockCounter = 0 ∧ st.buf.hashed = #[] ∧
     st.buf.content = #[] ∧ st.buf.totalOut = 0 ∧ 5 ≤ st.bytesRead ∧ st.bytesRead ≤ s.length ∧
@@ -317,7 +320,7 @@ theorem resetCore_replace (dicts : List Dict) (mw : Nat) (s : Src) (st : FState)
             exact ⟨rfl, rfl, rfl, rfl, rfl, rfl, h5, hn, fun r hr => (by cases hr; exact hrest), fun f hf => (nomatch hf)⟩
 
 /-- `reset` either leaves the decoder alone (header / window errors) or installs a fresh frame state -/
-theorem Decoder.reset_cases (d : Decoder) (s : Src) :
+theorem Decoder.reset_cases (d : Decoder σ) (s : Src) :
     (∃ e, d.reset s = (d, .err e)) ∨
     (∃ st o, d.reset s = ({ d with state := some st }, o) ∧ resetCore d.dicts d.maxWindow s = .replace st o) := by
   simp only [Decoder.reset]
@@ -328,7 +331,7 @@ theorem Decoder.reset_cases (d : Decoder) (s : Src) :
 
 
 /-- `decode_from_to` after the optional `init`, with the start value of the byte counter as a parameter -/
-def fromToCore (d1 : Decoder) (st : FState) (s1 : Src) (startRead n : Nat) : Decoder × Out (Nat × Array Nat) :=
+def fromToCore (d1 : Decoder σ) (st : FState σ) (s1 : Src) (startRead n : Nat) : Decoder σ × Out (Nat × Array Nat) :=
   if st.header.checksumFlag ∧ st.finished ∧ st.checksum.isNone then
     if s1.length ≥ 4 then
       ({ d1 with state := some { st with bytesRead := st.bytesRead + 4, checksum := some (leNat (s1.take 4)) } }, .ok (4, #[]))
@@ -336,13 +339,13 @@ def fromToCore (d1 : Decoder) (st : FState) (s1 : Src) (startRead n : Nat) : Dec
   else
     match decodeFromToLoop (s1.length + 1) st s1 with
     | (st', .ok ()) =>
-      (({ d1 with state := some st' } : Decoder).read n |>.1,
-        .ok ((({ d1 with state := some st' } : Decoder).read n).1.bytesRead - startRead,
-             (({ d1 with state := some st' } : Decoder).read n).2))
+      (({ d1 with state := some st' } : Decoder σ).read n |>.1,
+        .ok ((({ d1 with state := some st' } : Decoder σ).read n).1.bytesRead - startRead,
+             (({ d1 with state := some st' } : Decoder σ).read n).2))
     | (st', .err e) => ({ d1 with state := some st' }, .err e)
     | (st', .fault f) => ({ d1 with state := some st' }, .fault f)
 
-theorem Decoder.read_state (d : Decoder) (st : FState) (n : Nat) (h : d.state = some st) :
+theorem Decoder.read_state (d : Decoder σ) (st : FState σ) (n : Nat) (h : d.state = some st) :
     ∃ k, k ≤ n ∧ k ≤ st.buf.content.size ∧
       d.read n = ({ d with state := some { st with buf := (st.buf.take k).2 } }, (st.buf.take k).1) := by
   simp only [Decoder.read, h]
@@ -351,7 +354,7 @@ theorem Decoder.read_state (d : Decoder) (st : FState) (n : Nat) (h : d.state = 
   · exact Nat.min_le_left _ _
   · simp only [DBuf.canDrainToWindow]; split <;> simp <;> omega
 
-theorem Decoder.decodeFromTo_some (d : Decoder) (st : FState) (s : Src) (n : Nat) (h : d.state = some st) :
+theorem Decoder.decodeFromTo_some (d : Decoder σ) (st : FState σ) (s : Src) (n : Nat) (h : d.state = some st) :
     d.decodeFromTo s n =
       if d.isFinished then ((d.read n).1, .ok (0, (d.read n).2))
       else fromToCore d st s st.bytesRead n := by
@@ -371,7 +374,7 @@ theorem Decoder.decodeFromTo_some (d : Decoder) (st : FState) (s : Src) (n : Nat
         | fault f => rfl
   · simp [hread]
 
-theorem Decoder.decodeFromTo_none (d : Decoder) (s : Src) (n : Nat) (h : d.state = none) :
+theorem Decoder.decodeFromTo_none (d : Decoder σ) (s : Src) (n : Nat) (h : d.state = none) :
     d.decodeFromTo s n =
       match resetCore d.dicts d.maxWindow s with
       | .keep e => (d, .err e)
@@ -402,7 +405,7 @@ theorem Decoder.decodeFromTo_none (d : Decoder) (s : Src) (n : Nat) (h : d.state
 /-- what `decode_from_to` (after the optional `init`) does: a step of the decoder delivering exactly
 the bytes written to the target; the reported count is what the byte counter advanced by, and is
 bounded by the source length.  `startRead` is the counter value sampled at the start of the call. -/
-theorem fromToCore_spec (d1 : Decoder) (st : FState) (s1 : Src) (startRead n : Nat)
+theorem fromToCore_spec (d1 : Decoder σ) (st : FState σ) (s1 : Src) (startRead n : Nat)
     (hs : d1.state = some st) (h1 : startRead ≤ st.bytesRead) (h2 : st.finished = true → startRead = st.bytesRead) :
     ∃ dl, DStep d1 (fromToCore d1 st s1 startRead n).1 dl ∧
       (match (fromToCore d1 st s1 startRead n).2 with
@@ -443,10 +446,10 @@ theorem fromToCore_spec (d1 : Decoder) (st : FState) (s1 : Src) (startRead n : N
 
 
 
-theorem Decoder.read_dstep (d : Decoder) (n : Nat) : DStep d (d.read n).1 (d.read n).2 :=
+theorem Decoder.read_dstep (d : Decoder σ) (n : Nat) : DStep d (d.read n).1 (d.read n).2 :=
   applyDrain_dstep d (.read n)
 
-theorem streamingFill_dstep (fuel : Nat) (d : Decoder) (s : Src) (n : Nat) :
+theorem streamingFill_dstep (fuel : Nat) (d : Decoder σ) (s : Src) (n : Nat) :
     DStep d (streamingFill fuel d s n).1 #[] := by
   induction fuel generalizing d s with
   | zero => exact DStep.refl d
@@ -467,7 +470,7 @@ def Out.delivered {α} (f : α → Array Nat) : Out α → Array Nat
   | .ok a => f a
   | _ => #[]
 
-theorem streamingRead_dstep (d : Decoder) (s : Src) (n : Nat) :
+theorem streamingRead_dstep (d : Decoder σ) (s : Src) (n : Nat) :
     DStep d (streamingRead d s n).1 ((streamingRead d s n).2.delivered (·.2)) := by
   simp only [streamingRead]
   split
@@ -479,7 +482,7 @@ theorem streamingRead_dstep (d : Decoder) (s : Src) (n : Nat) :
     · have := hf.trans (Decoder.read_dstep _ n)
       simpa [Out.delivered] using this
 
-theorem Decoder.decodeFromTo_dstep (d : Decoder) (s : Src) (n : Nat) :
+theorem Decoder.decodeFromTo_dstep (d : Decoder σ) (s : Src) (n : Nat) :
     (d.state = none ∧ ∃ e, d.decodeFromTo s n = (d, .err e)) ∨
     (∃ d1, (d1 = d ∨ ∃ st, d.state = none ∧ d1 = { d with state := some st } ∧ st.buf.hashed = #[]) ∧
        DStep d1 (d.decodeFromTo s n).1 ((d.decodeFromTo s n).2.delivered (·.2))) := by
@@ -517,7 +520,7 @@ theorem Decoder.decodeFromTo_dstep (d : Decoder) (s : Src) (n : Nat) :
 
 /-- the hasher after `decode_from_to`: exactly the delivered bytes were added (the implicit `init` of a
 fresh decoder starts from the empty hash) -/
-theorem Decoder.decodeFromTo_hashed (d : Decoder) (s : Src) (n : Nat) :
+theorem Decoder.decodeFromTo_hashed (d : Decoder σ) (s : Src) (n : Nat) :
     (d.decodeFromTo s n).1.hashed = d.hashed ++ (d.decodeFromTo s n).2.delivered (·.2) := by
   rcases Decoder.decodeFromTo_dstep d s n with ⟨hn, e, he⟩ | ⟨d1, hd1, hstep⟩
   · rw [he]; simp [Out.delivered]
@@ -536,18 +539,18 @@ inductive Op where
 
 /-- run an operation with ANY source argument (not necessarily the continuation of the previous
 one); second component: the bytes handed to the caller -/
-def applyOp (d : Decoder) : Op → Decoder × Array Nat
+def applyOp (d : Decoder σ) : Op → Decoder σ × Array Nat
   | .drain o => applyDrain d o
   | .blocks s strat => ((d.decodeBlocks s strat).1, #[])
   | .fromTo s n => ((d.decodeFromTo s n).1, (d.decodeFromTo s n).2.delivered (·.2))
   | .sread s n => ((streamingRead d s n).1, (streamingRead d s n).2.delivered (·.2))
   | .setMax w => (d.setMaxWindowSize w, #[])
 
-def runOps (d : Decoder) : List Op → Decoder × Array Nat
+def runOps (d : Decoder σ) : List Op → Decoder σ × Array Nat
   | [] => (d, #[])
   | op :: ops => ((runOps (applyOp d op).1 ops).1, (applyOp d op).2 ++ (runOps (applyOp d op).1 ops).2)
 
-theorem applyOp_hashed (d : Decoder) (op : Op) : (applyOp d op).1.hashed = d.hashed ++ (applyOp d op).2 := by
+theorem applyOp_hashed (d : Decoder σ) (op : Op) : (applyOp d op).1.hashed = d.hashed ++ (applyOp d op).2 := by
   cases op with
   | drain o => exact (applyDrain_dstep d o).hashed
   | blocks s strat => exact (Decoder.decodeBlocks_dstep d s strat).hashed
@@ -555,7 +558,7 @@ theorem applyOp_hashed (d : Decoder) (op : Op) : (applyOp d op).1.hashed = d.has
   | sread s n => exact (streamingRead_dstep d s n).hashed
   | setMax w => simp [applyOp, Decoder.setMaxWindowSize, Decoder.hashed]
 
-theorem runOps_hashed (d : Decoder) (ops : List Op) : (runOps d ops).1.hashed = d.hashed ++ (runOps d ops).2 := by
+theorem runOps_hashed (d : Decoder σ) (ops : List Op) : (runOps d ops).1.hashed = d.hashed ++ (runOps d ops).2 := by
   induction ops generalizing d with
   | nil => simp [runOps]
   | cons op ops ih => simp only [runOps]; rw [ih, applyOp_hashed, Array.append_assoc]
@@ -564,20 +567,20 @@ theorem runOps_hashed (d : Decoder) (ops : List Op) : (runOps d ops).1.hashed = 
 
 /-! ### memory bounds -/
 
-theorem Decoder.decodeBlocks_window (d : Decoder) (s : Src) (strat : Strategy) :
+theorem Decoder.decodeBlocks_window (d : Decoder σ) (s : Src) (strat : Strategy) :
     (d.decodeBlocks s strat).1.window = d.window := by
   have h := Decoder.decodeBlocks_dstep d s strat
   rcases h.2.2 with ⟨ha, hb, -⟩ | ⟨st, st', ha, hb, hs⟩
   · simp [Decoder.window, ha, hb]
   · simp [Decoder.window, ha, hb, hs.window]
 
-theorem DStep.window {d d' : Decoder} {dl : Array Nat} (h : DStep d d' dl) : d'.window = d.window := by
+theorem DStep.window {d d' : Decoder σ} {dl : Array Nat} (h : DStep d d' dl) : d'.window = d.window := by
   rcases h.2.2 with ⟨ha, hb, -⟩ | ⟨st, st', ha, hb, hs⟩
   · simp [Decoder.window, ha, hb]
   · simp [Decoder.window, ha, hb, hs.window]
 
 /-- `decodeBlocks_bound` (bytes budget) -/
-theorem Decoder.decodeBlocks_bound_bytes (d : Decoder) (s : Src) (n : Nat) :
+theorem Decoder.decodeBlocks_bound_bytes (d : Decoder σ) (s : Src) (n : Nat) :
     (d.decodeBlocks s (.uptoBytes n)).1.content.size ≤ d.content.size + n + Gen.maxBlockSize := by
   cases h : d.state with
   | none => simp [Decoder.decodeBlocks, h, Decoder.content]
@@ -587,7 +590,7 @@ theorem Decoder.decodeBlocks_bound_bytes (d : Decoder) (s : Src) (n : Nat) :
     exact decodeBlocksLoop_bound_bytes n _ _ _ st s (Nat.le_add_right _ _)
 
 /-- `decodeBlocks_bound` (block budget; the loop always decodes at least one block) -/
-theorem Decoder.decodeBlocks_bound_blocks (d : Decoder) (s : Src) (k : Nat) :
+theorem Decoder.decodeBlocks_bound_blocks (d : Decoder σ) (s : Src) (k : Nat) :
     (d.decodeBlocks s (.uptoBlocks k)).1.content.size ≤ d.content.size + max k 1 * Gen.maxBlockSize := by
   cases h : d.state with
   | none => simp [Decoder.decodeBlocks, h, Decoder.content]
@@ -597,7 +600,7 @@ theorem Decoder.decodeBlocks_bound_blocks (d : Decoder) (s : Src) (k : Nat) :
     have := decodeBlocksLoop_bound_blocks k st.buf.content.size st.blockCounter (s.length + 1) st s (Nat.le_refl _) (by omega)
     simpa using this
 
-theorem Decoder.canCollect_eq (d : Decoder) :
+theorem Decoder.canCollect_eq (d : Decoder σ) :
     d.canCollect = if d.isFinished then d.content.size else d.content.size - d.window := by
   cases h : d.state with
   | none => simp [Decoder.canCollect, Decoder.content, h]
@@ -608,7 +611,7 @@ theorem Decoder.canCollect_eq (d : Decoder) :
     · split <;> simp <;> omega
 
 /-- peak buffer size during `StreamingDecoder::read`'s fill loop -/
-theorem streamingFill_bound (fuel : Nat) (d : Decoder) (s : Src) (n : Nat) :
+theorem streamingFill_bound (fuel : Nat) (d : Decoder σ) (s : Src) (n : Nat) :
     (streamingFill fuel d s n).1.content.size ≤ max d.content.size (d.window + n + Gen.maxBlockSize) ∧
     (streamingFill fuel d s n).1.window = d.window := by
   induction fuel generalizing d s with
@@ -636,14 +639,14 @@ theorem streamingFill_bound (fuel : Nat) (d : Decoder) (s : Src) (n : Nat) :
         exact ⟨by omega, this.2⟩
     · exact ⟨by simp only; omega, rfl⟩
 
-theorem Decoder.read_content_le (d : Decoder) (n : Nat) : (d.read n).1.content.size ≤ d.content.size := by
+theorem Decoder.read_content_le (d : Decoder σ) (n : Nat) : (d.read n).1.content.size ≤ d.content.size := by
   cases h : d.state with
   | none => simp [Decoder.read, h, Decoder.content]
   | some st =>
     obtain ⟨k, -, -, hr⟩ := Decoder.read_state d st n h
     rw [hr]; simp only [Decoder.content, h, DBuf.take_content_size]; omega
 
-theorem streamingRead_bound (d : Decoder) (s : Src) (n : Nat) :
+theorem streamingRead_bound (d : Decoder σ) (s : Src) (n : Nat) :
     (streamingRead d s n).1.content.size ≤ max d.content.size (d.window + n + Gen.maxBlockSize) := by
   simp only [streamingRead]
   split
@@ -658,7 +661,7 @@ theorem streamingRead_bound (d : Decoder) (s : Src) (n : Nat) :
       omega
 
 /-- `drain_bound`: `collect()` leaves at most `window_size` bytes buffered, in every state -/
-theorem Decoder.collect_bound (d : Decoder) : (d.collect).1.content.size ≤ d.window := by
+theorem Decoder.collect_bound (d : Decoder σ) : (d.collect).1.content.size ≤ d.window := by
   cases h : d.state with
   | none => simp [Decoder.collect, h, Decoder.content]
   | some st =>
@@ -672,7 +675,7 @@ theorem Decoder.collect_bound (d : Decoder) : (d.collect).1.content.size ≤ d.w
 
 /-- `read(buf)` removes `min(available, buf.len())` bytes, where available is everything above the
 window (everything, once the last block is in) -/
-theorem Decoder.read_bound (d : Decoder) (n : Nat) :
+theorem Decoder.read_bound (d : Decoder σ) (n : Nat) :
     (d.read n).1.content.size ≤ max (d.content.size - n) (if d.blocksDone then 0 else d.window) := by
   cases h : d.state with
   | none => simp [Decoder.read, h, Decoder.content]
